@@ -402,7 +402,43 @@ func TestC08(t *testing.T) {
 		if mode == 9 && rapid.IntRange(0, 3).Draw(rt, "stressShare") == 0 {
 			mode = 10
 		}
+		if mode == 8 && rapid.IntRange(0, 3).Draw(rt, "manyDotsShare") == 0 {
+			mode = 11
+		}
 		switch mode {
+		case 11:
+			// Valid patches with many elisions, among them elisions in the
+			// parameter lists of nested func literals and a leading "...":
+			// the pre-scanner records a dozen or more places to patch up.
+			cs.Mode = "many-elisions"
+			var b strings.Builder
+			b.WriteString("@@\n@@\n")
+			switch rapid.IntRange(0, 2).Draw(rt, "leadDots") {
+			case 0:
+				b.WriteString("-...\n")
+			case 1:
+				b.WriteString(" ...\n")
+			}
+			nest := func(d int) string {
+				out := "func(...)"
+				for i := 1; i < d; i++ {
+					out = "func(..., " + out + ")"
+				}
+				return out
+			}
+			lines := rapid.IntRange(1, 6).Draw(rt, "manyLines")
+			for i := 0; i < lines; i++ {
+				d := rapid.IntRange(1, 6).Draw(rt, fmt.Sprintf("nestDepth%d", i))
+				extra := strings.Repeat(", ...", rapid.IntRange(0, 6).Draw(rt, fmt.Sprintf("extraDots%d", i)))
+				fmt.Fprintf(&b, "-a%d(%s {}%s)\n", i, nest(d), extra)
+				if rapid.Bool().Draw(rt, fmt.Sprintf("plusDots%d", i)) {
+					fmt.Fprintf(&b, "+b%d(%s {}%s)\n", i, nest(d), extra)
+				} else {
+					fmt.Fprintf(&b, "+b%d()\n", i)
+				}
+			}
+			cs.Patch = []byte(b.String())
+			cs.Target = "package a\n\nfunc h() {\n\ta0(func(x int, g func()) {}, 1, 2)\n\ta1(func() {})\n}\n"
 		case 10:
 			// Small inputs that are expensive for a naive algorithm: deeply
 			// nested code around a site; a pattern with many elisions on a long
